@@ -22,6 +22,20 @@ def neighbours (bshape : List Nat) (bc : Array Int) : List (List Int) :=
     let k := subPos (unravelI bshape i) c
     if bc.getD i 0 == 0 || isZeroPos k then none else some k
 
+/-- `_remove_centre` (`morph.py`): `Bc[tuple(s//2 for s in Bc.shape)] = False`, done by
+    `locmax`/`locmin`/`regmax`/`regmin` on a copy of the structuring element as given (round 4). -/
+def removeCentre (bshape : List Nat) (bc : Array Int) : Array Int :=
+  bc.setIfInBounds (ravelI bshape (centreOf bshape)) 0
+
+/-- the offsets `filter_iterator(…, compress_zeros = true)` visits: every non-zero entry of the
+    array it is given, the centre included when it is set; scan order. `locmin_max` runs over this
+    list (after `_remove_centre`), `remove_fake_regmin_max` and `close_holes` over `neighbours`
+    (the C++ `neighbours(Bc)`, which skips the centre position itself). -/
+def rawOffsets (bshape : List Nat) (bc : Array Int) : List (List Int) :=
+  let c := centreOf bshape
+  (List.range (shapeSize bshape)).filterMap fun i =>
+    if bc.getD i 0 == 0 then none else some (subPos (unravelI bshape i) c)
+
 /-! ### decidable checks of the hypotheses of the theorems (soundness: `Proofs/StarCheck.lean`) -/
 
 /-- the integers between 0 and `a` (inclusive) -/
@@ -63,6 +77,17 @@ def locSpecAt (isMin : Bool) (A : Img Int) (nb : List (List Int)) (p : List Int)
 
 def locModel (isMin : Bool) (A : Img Int) (nb : List (List Int)) : Array Bool :=
   ((allPos A.shape).map (locAt isMin A nb)).toArray
+
+/-- specification for an **arbitrary** neighbourhood (round 4): the pixel is marked unless the value
+    at some neighbour position *clamped onto the image coordinate by coordinate* (`clampPos`,
+    `max 0 (min x (n-1))`) beats it. For star-shaped neighbourhoods this is `locSpecAt`. -/
+def locClampedSpecAt (isMin : Bool) (A : Img Int) (nb : List (List Int)) (p : List Int) : Bool :=
+  nb.all fun k => !beats isMin (A.getD (clampPos A.shape (addPos p k)) 0) (A.getD p 0)
+
+/-- `mahotas.locmax` / `locmin` on the structuring element **as given**: `_remove_centre`, then the
+    kernel over the compressed footprint of what is left. -/
+def locModelRaw (isMin : Bool) (A : Img Int) (bshape : List Nat) (bc : Array Int) : Array Bool :=
+  locModel isMin A (rawOffsets bshape (removeCentre bshape bc))
 
 /-! ### stack flood fill (shared by `remove_fake_regmin_max` and `close_holes`) -/
 
@@ -123,9 +148,24 @@ def iter {α : Type} (f : α → α) : Nat → α → α
   | 0, x => x
   | n + 1, x => iter f n (f x)
 
+def regBad0 (isMin : Bool) (A : Img Int) (nb : List (List Int)) : Array Bool :=
+  ((allPos A.shape).map fun q => !locSpecAt isMin A nb q).toArray
+
+def regSpecBad (isMin : Bool) (A : Img Int) (nb : List (List Int)) : Array Bool :=
+  iter (badStep A nb) A.size (regBad0 isMin A nb)
+
 def regSpec (isMin : Bool) (A : Img Int) (nb : List (List Int)) : Array Bool :=
-  let bad0 := ((allPos A.shape).map fun q => !locSpecAt isMin A nb q).toArray
-  (iter (badStep A nb) A.size bad0).map (!·)
+  (regSpecBad isMin A nb).map (!·)
+
+/-- did the iteration of `regSpec` reach its fixed point? (one more round changes nothing; the
+    driver prints it, `C14_regspec_eq_regional_partial` needs it) -/
+def regSpecFixed (isMin : Bool) (A : Img Int) (nb : List (List Int)) : Bool :=
+  (badStep A nb (regSpecBad isMin A nb)).toList == (regSpecBad isMin A nb).toList
+
+/-- `mahotas.regmax` / `regmin` on the structuring element as given: `_remove_centre` in Python,
+    `locmin_max` over the compressed footprint, `remove_fake_regmin_max` over `neighbours(Bc)`. -/
+def regModelRaw (isMin : Bool) (A : Img Int) (bshape : List Nat) (bc : Array Int) : Array Bool :=
+  removeFake isMin A (neighbours bshape (removeCentre bshape bc)) (locModelRaw isMin A bshape bc)
 
 /-! ### `close_holes` -/
 
@@ -214,6 +254,28 @@ def hitmissSpecAt (A : Img Int) (bshape : List Nat) (bc : Array Int) (p : List I
         A.getD (addPos p (subPos (unravelI bshape i) (centreOf bshape))) 0 == bc.getD i 0)
   then 1 else 0
 
+/-- closed form of what the `slack` rule does with **even** template sides (round 4): a position at
+    which the template fits is nevertheless skipped when, on some axis with an even side `b`,
+    * the axis is the last one and the image side equals `b` (the margin test at `x = b/2` fails, so
+      the whole row is skipped), or
+    * the axis is not the last one and `x` is the last fitting position `n - b/2`
+      (the symmetric margin rule `min(x, n-1-x) ≥ b/2` rejects it). -/
+def hmEvenExcluded : List Nat → List Nat → List Int → Bool
+  | n :: ns, b :: bs, x :: xs =>
+    (b % 2 == 0 && (if ns.isEmpty then n == b else x == (n : Int) - ((b / 2 : Nat) : Int))) ||
+      hmEvenExcluded ns bs xs
+  | _, _, _ => false
+
+/-- the answer of `hitmiss` in closed form for every template shape (odd, even, larger than the
+    image): 1 exactly when the template fits at `p`, `p` is not one of the positions the even-side
+    rule skips, and every entry different from 2 equals the pixel under it. -/
+def hitmissClosedAt (A : Img Int) (bshape : List Nat) (bc : Array Int) (p : List Int) : Int :=
+  if templateInside A.shape bshape p && !hmEvenExcluded A.shape bshape p &&
+     ((List.range (shapeSize bshape)).all fun i =>
+        bc.getD i 0 == 2 ||
+        A.getD (addPos p (subPos (unravelI bshape i) (centreOf bshape))) 0 == bc.getD i 0)
+  then 1 else 0
+
 /-! ### driver entry -/
 
 /-- the binary image number `idx` of a shape: pixel `j` (C order) is bit `j` of `idx` -/
@@ -232,26 +294,28 @@ def handle (a : Args) : String :=
     let isMin := a.nat "min" == 1
     let nb := neighbours bshape bc
     let regular := starShapedB nb && symNbB shape.length nb
-    s!"model={showBools (locModel isMin A nb).toList} spec={showBools ((allPos shape).map (locSpecAt isMin A nb))} regular={if regular then 1 else 0}"
+    let star := starShapedB nb
+    s!"model={showBools (locModelRaw isMin A bshape bc).toList} spec={showBools ((allPos shape).map (locSpecAt isMin A nb))} cspec={showBools ((allPos shape).map (locClampedSpecAt isMin A nb))} regular={if regular then 1 else 0} star={if star then 1 else 0}"
   | "reg" =>
     let isMin := a.nat "min" == 1
     let nb := neighbours bshape bc
     let regular := starShapedB nb && symNbB shape.length nb
-    s!"model={showBools (regModel isMin A nb).toList} spec={showBools (regSpec isMin A nb).toList} loc={showBools ((allPos shape).map (locSpecAt isMin A nb))} regular={if regular then 1 else 0}"
+    s!"model={showBools (regModelRaw isMin A bshape bc).toList} spec={showBools (regSpec isMin A nb).toList} loc={showBools ((allPos shape).map (locSpecAt isMin A nb))} regular={if regular then 1 else 0} fix={if regSpecFixed isMin A nb then 1 else 0}"
   | "holes" =>
     let nb := neighbours bshape bc
     let regular := symNbB shape.length nb
     s!"model={showBools (closeHoles A nb).toList} spec={showBools (closeHolesSpec A nb).toList} regular={if regular then 1 else 0}"
   | "hitmiss" =>
     let es := hmEntries bshape bc
-    s!"model={showInts ((allPos shape).map (hitmissAt A bshape es))} modelrev={showInts ((allPos shape).map (hitmissAt A bshape es.reverse))} spec={showInts ((allPos shape).map (hitmissSpecAt A bshape bc))}"
+    s!"model={showInts ((allPos shape).map (hitmissAt A bshape es))} modelrev={showInts ((allPos shape).map (hitmissAt A bshape es.reverse))} spec={showInts ((allPos shape).map (hitmissSpecAt A bshape bc))} closed={showInts ((allPos shape).map (hitmissClosedAt A bshape bc))}"
   | "hmblock" =>
     -- all binary images with index in [lo, hi) (pixel j of image `idx` = bit j of `idx`); digits, no separators
     let es := hmEntries bshape bc
     let idxs := (List.range (a.nat "hi" - a.nat "lo")).map (· + a.nat "lo")
     let model := idxs.map fun idx => digits ((allPos shape).map fun p => hitmissAt (bitImg shape idx) bshape es p)
     let spec := idxs.map fun idx => digits ((allPos shape).map fun p => hitmissSpecAt (bitImg shape idx) bshape bc p)
-    s!"model={String.join model} spec={String.join spec}"
+    let closed := idxs.map fun idx => digits ((allPos shape).map fun p => hitmissClosedAt (bitImg shape idx) bshape bc p)
+    s!"model={String.join model} spec={String.join spec} closed={String.join closed}"
   | "holesblock" =>
     let nb := neighbours bshape bc
     let idxs := (List.range (a.nat "hi" - a.nat "lo")).map (· + a.nat "lo")
